@@ -263,7 +263,7 @@ package arvados
 //@   modifies mem:byte
 //@ iface inode.Write
 //@   modifies all
-//@ iface inode.Size
+//@ iface inode.Size pure
 //@   modifies nothing
 //@ iface inode.RLock
 //@   modifies nothing
@@ -399,3 +399,39 @@ package arvados
 //@ func filenode.Truncate property C08
 //@   requires fnValid(fn) && size >= 0 && fn.repacked >= 0
 //@   calls filenode.truncate#1: requires $0 == size
+
+// Directory operations: the decision made on the directory entry (the callback
+// handed to inode.Child decides what the entry becomes).
+// remove: a missing entry is os.ErrNotExist (and stays missing); a non-empty
+// directory is refused unless the removal is recursive (and stays); otherwise
+// the entry is dropped.
+//@ func fileSystem.remove$1 property C08
+//@   ensures node == nil ==> result0 == nil && result1 == os.ErrNotExist
+//@   ensures node != nil && !recursive && inode.IsDir(node) && inode.Size(node) > 0 ==> result0 == node && result1 == ErrDirectoryNotEmpty
+//@   ensures node != nil && !(!recursive && inode.IsDir(node) && inode.Size(node) > 0) ==> result0 == nil && result1 == nil
+// Rename, inner decision on the target entry: an existing directory is never
+// replaced (ErrIsDirectory, entry kept); otherwise the moved inode takes the place.
+//@ func fileSystem.Rename$1$1 property C08
+//@   ensures existing != nil && inode.IsDir(existing) ==> result0 == existing && result1 == ErrIsDirectory
+//@   ensures !(existing != nil && inode.IsDir(existing)) ==> result0 == oldinode && result1 == nil
+// Rename, decision on the source entry: a missing source is os.ErrNotExist; an
+// inode that is an ancestor-or-self of either directory (it is in the locked
+// set) cannot be moved into itself; whenever an error is returned the source
+// entry is left in place.
+//@ iface inode.SetParent
+//@   modifies all
+//@ iface inode.FS pure
+//@   modifies nothing
+//@ func fileSystem.Rename$1 property C08
+//@   ensures oldinode == nil ==> result1 == os.ErrNotExist
+//@   ensures oldinode != nil && old(has(locked, iface(oldinode)) && locked[iface(oldinode)]) ==> result0 == oldinode && result1 == ErrInvalidArgument
+//@   ensures result1 != nil ==> result0 == oldinode
+// Mkdir: an existing entry of that name is os.ErrExist (nothing is created).
+//@ func fileSystem.Mkdir property C08
+//@   ghost ex inode = nil
+//@   ghost exerr error = nil
+//@   calls inode.Child#1: requires $0 == name
+//@   calls inode.Child#1: set ex = $r0
+//@   calls inode.Child#1: set exerr = $r1
+//@   calls inode.Child#2: requires exerr == nil && ex == nil && $0 == name
+//@   ensures exerr == nil && ex != nil ==> result == os.ErrExist
